@@ -250,9 +250,9 @@ claim(
 claim(
     "C09",
     "other",
-    "Narrow: the supercell equality of runs is not decided. Decided is the condition it rests on — every read of a neighbouring cell across a periodic face sees what the adjacent copy of the cell would hold: pad_fields_for_boundaries, interpreted on a concrete 3x2x2 grid of free symbolic entries for every combination of Bloch / terminating axes, k of either sign and k = 0, uniform and resolved grids, yields halo cells equal to the wrapped neighbour times conj(phase) (min side) / phase (max side) with phase = exp(i k_a L_a), products at corners, zero behind terminating faces, interior untouched; needs_complex_fields is true exactly for a non-zero component along the boundary's own axis (negative included); wrap padding is reported exactly on axes with a periodic / Bloch face; inside fdtd/update.py the phase-less pad_fields is called only from pad_fields_for_boundaries and every array handed to a curl / anisotropic averaging routine in the four update functions is a result of pad_fields_for_boundaries.",
-    TB + "; np.pad model on concrete arrays; syntax-tree def-use of the padded inputs",
-    "abstract interpretation on a concrete grid of free symbols against a supercell-halo oracle; decision tables; who-may-call / def-use rule on the syntax tree",
+    "Decides one step of the supercell identity on concrete cells: forward() is interpreted on a concrete cell (3x2x2 and its permutations) and on its supercell (2 or 3 copies per periodic axis; fields tiled with the Bloch phase exp(i k L) per copy, materials and — on a resolved rectilinear grid — cell widths tiled) with every field, material (isotropic, diagonal, full eps / mu tensors) and cell-width entry a free symbol, and the supercell's result must equal the tiled cell's result entry by entry as rational functions (periodic and Bloch faces on one, two or three axes, walls elsewhere). Whole runs follow by induction; round-off is not decided. Also decided is the condition it rests on — every read of a neighbouring cell across a periodic face sees what the adjacent copy of the cell would hold: pad_fields_for_boundaries, interpreted on a concrete 3x2x2 grid of free symbolic entries for every combination of Bloch / terminating axes, k of either sign and k = 0, uniform and resolved grids, yields halo cells equal to the wrapped neighbour times conj(phase) (min side) / phase (max side) with phase = exp(i k_a L_a), products at corners, zero behind terminating faces, interior untouched; needs_complex_fields is true exactly for a non-zero component along the boundary's own axis (negative included); wrap padding is reported exactly on axes with a periodic / Bloch face; inside fdtd/update.py the phase-less pad_fields is called only from pad_fields_for_boundaries and every array handed to a curl / anisotropic averaging routine in the four update functions is a result of pad_fields_for_boundaries.",
+    TB + "; np.pad model on concrete arrays; linalg.solve with an identity left-hand side = right-hand side; syntax-tree def-use of the padded inputs",
+    "abstract interpretation of a whole solver step on a concrete cell and on its supercell over free symbols (rational-function identity per entry); supercell-halo oracle; decision tables; who-may-call / def-use rule on the syntax tree",
     "DESIGN.md §5 C09",
 )
 
